@@ -133,7 +133,7 @@ class Corpus:
         lines.extend(extra_attrs)
         g = f"<{', '.join(generics)}>" if generics else ""
         if tuple_struct:
-            lines.append(f"pub struct {name}{g}(" + ", ".join("pub " + f.ty for f in fields) + ");")
+            lines.append(f"pub struct {name}{g}(" + ", ".join((" ".join(f.attrs()) + " pub " + f.ty).strip() for f in fields) + ");")
         elif not fields:
             lines.append(f"pub struct {name}{g};")
         else:
@@ -255,6 +255,9 @@ def fam_prim(c):
         L += c.struct(mod, name, fields, repr=repr_, family="PRIM")
     L += c.struct(mod, "T_u32_u32", [F("0", "u32"), F("1", "u32")], repr="C", family="PRIM", tuple_struct=True)
     L += c.struct(mod, "T_newtype", [F("0", "u64")], family="PRIM", tuple_struct=True)
+    # an ignored field in the middle of a tuple struct / of an enum variant (the recorded offsets are those of the declared positions)
+    L += c.struct(mod, "T_ignore_mid_C", [F("0", "u32"), F("1", "u16", ignore=True), F("2", "u64")], repr="C", family="PRIM", tuple_struct=True)
+    L += c.struct(mod, "T_ignore_first_C", [F("0", "u64", ignore=True), F("1", "u16"), F("2", "u32")], repr="C", family="PRIM", tuple_struct=True)
     L += c.struct(mod, "Unit", [], family="PRIM")
     # nesting
     L += c.struct(mod, "N_packed_in_packed", [F("a", "P_u32_u16_u16_C"), F("b", "u64")], repr="C", family="NEST")
